@@ -291,9 +291,15 @@ class PTable(EngineBase):
                 return {"op": "children", "h": rng.randrange(64),
                         "rec": True}
             if r < 0.84:
-                return {"op": "parent", "h": rng.randrange(64)}
+                op = {"op": "parent", "h": rng.randrange(64)}
+                if rng.random() < 0.12:
+                    op["deny"] = True
+                return op
             if r < 0.93:
-                return {"op": "parents", "h": rng.randrange(64)}
+                op = {"op": "parents", "h": rng.randrange(64)}
+                if rng.random() < 0.12:
+                    op["deny"] = True
+                return op
             if r < 0.95:
                 return {"op": "ppid", "h": rng.randrange(64)}
             if r < 0.98:
@@ -827,14 +833,28 @@ class PTable(EngineBase):
             return hash(p)
         if kind == "children":
             return p.children(recursive=op["rec"])
+        if kind in ("parent", "parents") and op.get("deny"):
+            # the parent's record cannot be read (hidepid, another user's
+            # process): AccessDenied or the right answer, never a guess
+            cur_ = k.procs.get(h.pid)
+            if cur_ is not None and cur_.ppid not in (h.pid, 1000):
+                k.deny = {"/proc/%d/stat" % cur_.ppid: 13}
+                st["probe"]("parent_record_unreadable")
         if kind == "parent":
-            return p.parent()
+            try:
+                return p.parent()
+            finally:
+                k.deny = {}
         if kind == "parents":
             snap = k.snapshot()
             if h.pid in snap and self._ref_parents(snap, h.pid) is None:
                 st["probe"]("parents_skipped_endless_reference_chain")
+                k.deny = {}
                 return "no-handle"
-            return p.parents()
+            try:
+                return p.parents()
+            finally:
+                k.deny = {}
         if kind == "ppid":
             return p.ppid()
         raise ValueError(kind)
